@@ -17,3 +17,4 @@ INVARIANT KeysMatchRules
 INVARIANT MemMatchesDb
 INVARIANT LastBlockRight
 INVARIANT OwnStable
+INVARIANT ExitOnlyByOwner
